@@ -19,6 +19,9 @@ CLAIMED["C04"] = dict(tech="property-based testing (rapid): generated schema + d
 CLAIMED["C03"] = dict(tech="property-based testing (rapid) against a harness reference model of the keyed deep merge, with direct inspection of the stores' backing Go data",
       text="Generated-input search: target and source are overlapping sub-samples of one generated universe tree; strategy x entry point (root, container, list, list entry) x XFrom/XInto x source store (reference, JSON reader) x target store (reference store, map-backed nodeutil.Reflect, map-backed nodeutil.Node). The expected tree or the expected error class (conflict / not-found) comes from the harness merge model; after a failure, paths the source does not mention must be unchanged.",
       note="Case switches are only asserted for upsert. Map-backed stores are compared as keyed sets (Go maps have no insertion order) and are generated with single keys of the types the stores can hold.", ref="7 C03")
+CLAIMED["C15"] = dict(tech="property-based testing (rapid) with encoding/json as independent decoder, plus injected output-stream failures",
+      text="Generated-input search: schema + data with every leaf type and hostile strings x writer configuration (Pretty, EnumAsIds, QualifyNamespace) x start selection (root, container, list, list entry, leaf). The output must be exactly one RFC 8259 value for encoding/json, have arrays for lists/leaf-lists, objects for containers, [null] for empty, scalars that decode to the stored values, correct (un)qualified names, and pretty == compact modulo insignificant whitespace. A stream failing after k bytes must produce an error.",
+      note="Single-module schemas (qualification where the defining module changes is not exercised yet). Below a non-root start both qualified and unqualified names are accepted.", ref="7 C15")
 NOT_YET = {}
 props = [json.loads(l) for l in open(os.path.join(ROOT, "properties.jsonl"))]
 checks, na = [], []
